@@ -1,11 +1,90 @@
-"""C02 - making a move follows the rules of chess (work in progress)."""
+"""C02 - making a move follows the rules of chess.
+
+  mut/*      add_piece / remove_piece / move_piece under contract: the full representation invariant (board == bitboards ==
+             piece lists) is preserved, exact effect on the touched square(s), key deltas (shared with C03/C04)
+  do_move/*  Position::do_move under contract with the three mutators BY CONTRACT: for every well-formed position and every
+             pseudo-legal move, the resulting placement (ghost square), side, castling rights, e.p. square, half-move clock and ply
+             equal spec_after (the mailbox rules of spec/pos.h); the representation invariant and the state invariant hold
+             afterwards; the history gets exactly one new entry (the new key); the returned undo record packs the old state
+"""
 from runner import Job, tu
 from props.poscommon import *
 
 LEVEL = 'proof'
-EXPLANATION = ''
-ASSUMPTIONS = []
+EXPLANATION = ('Position::do_move is checked against the mailbox rules (spec/pos.h: castling moves king and rook and increments the clock, '
+               'rook captures on home squares revoke rights, e.p. removes the pawn behind the target square, promotion replaces the pawn) '
+               'for every well-formed position and every pseudo-legal move; sequences of any length are covered because the representation '
+               'invariant wf is a pre- and postcondition (induction over the move sequence is the contract discipline).')
+ASSUMPTIONS = ['Position::fen() / Uci::position_command (iostream, std::map) are outside the verified subset: the six FEN fields are printed from exactly the fields constrained here (_board, _current_side, _castling_rights, _enpassant_square, _half_move_counter, _ply_counter)',
+               'game length: _history_counter < MAX_PLIES (800) and half-move clock <= 150 are preconditions of do_move here (their violation is C10 territory)',
+               'a promotion requires room in the piece list of the promoted kind (< 10 of that kind): always true in positions reachable by legal play',
+               'spec/pos.h rule oracle (validated against perft counts at development time)']
+NOT_COVERED = ['FEN text output/input', 'UCI position command parsing']
+
+DO = 'Position__do_move'
+GHOST = 'SPos G_P0; uint32_t G_SQ; uint32_t G_PC; int G_I, G_J; int G_HI; uint32_t G_CLASS;\nstruct Position W_P; uint32_t W_m;\n'
+KEY = '(self->_zobrist_hash._piece_key ^ self->_zobrist_hash._pawn_key ^ self->_zobrist_hash._enpassant_key ^ self->_zobrist_hash._castling_key ^ self->_zobrist_hash._color_key)'
+
+C_DO = ('__CPROVER_requires(wf_pos(self) && sp_is(self, &G_P0) && sp_pseudo_legal(&G_P0, move) && G_SQ < 64 && G_PC >= 1 && G_PC <= 12)\n'
+        '__CPROVER_requires(self->_history_counter >= 1 && self->_history_counter < 800 && self->_half_move_counter <= 150 && self->_ply_counter >= 0 && self->_ply_counter < 100000)\n'
+        '__CPROVER_requires(G_HI >= 0 && G_HI < self->_history_counter)\n'
+        '__CPROVER_requires(spec_move_promo(move) == 0 || self->_piece_count[sp_piece(self->_current_side, spec_move_promo(move))] < 10)\n'
+        '__CPROVER_requires(move_class(&G_P0, move) == G_CLASS)\n'
+        '__CPROVER_assigns(__CPROVER_object_whole(self))\n'
+        '__CPROVER_ensures(self->_board[G_SQ] == sp_after_piece(&G_P0, move, G_SQ))\n'
+        '__CPROVER_ensures(self->_current_side == 1 - G_P0.side)\n'
+        '__CPROVER_ensures(self->_castling_rights == sp_after_rights(&G_P0, move))\n'
+        '__CPROVER_ensures(self->_enpassant_square == sp_after_ep(&G_P0, move))\n'
+        '__CPROVER_ensures(self->_half_move_counter == sp_after_half(&G_P0, move))\n'
+        '__CPROVER_ensures(self->_ply_counter == G_P0.ply + 1)\n'
+        '__CPROVER_ensures(wf_board_at(self, G_SQ) && wf_row_at(self, G_PC, G_SQ, G_I, G_J))\n'
+        '__CPROVER_ensures(wf_state(self))\n'
+        '__CPROVER_ensures(self->_history_counter == __CPROVER_old(self->_history_counter) + 1 && self->_history[self->_history_counter - 1] == %s)\n' % KEY +
+        '__CPROVER_ensures(self->_history[G_HI] == __CPROVER_old(self->_history[G_HI]))\n'
+        '__CPROVER_ensures(__CPROVER_return_value == spec_mi_pack(sp_captured_kind(&G_P0, move), G_P0.rights, G_P0.ep, sp_is_ep(&G_P0, move), G_P0.half))\n')
+
+CLASSES = ['castling', 'enpassant', 'promotion', 'capture', 'quiet']
+MOVE_CLASS = '''
+/* case split of the obligation by move class (one path through do_move per query) */
+static inline uint32_t move_class(const SPos *P, uint32_t m)
+{ if (spec_move_ccode(m) != 0) return 0; if (sp_is_ep(P, m)) return 1; if (spec_move_promo(m) != 0) return 2; if (P->board[spec_move_to(m)] != 0) return 3; return 4; }
+'''
+
+REPLAY_DO = {'needs': ['W_m'], 'body': '''
+  SPos P0; VerifAccess::abs(P, P0);
+  std::string fen0 = P.fen();
+  uint32_t m = (uint32_t)W_m;
+  if (!sp_pseudo_legal(&P0, m)) { printf("counterexample move is not pseudo-legal in the witness position\\n"); return 0; }
+  P.do_move((Move)m);
+  SPos Q, R; sp_after(&P0, m, &Q); VerifAccess::abs(P, R);
+  int bad = 0;
+  for (int s = 0; s < 64; s++) if (Q.board[s] != R.board[s]) { printf("square %d: engine has piece %u, rules say %u\\n", s, R.board[s], Q.board[s]); bad++; }
+  if (Q.side != R.side) { printf("side: engine %u rules %u\\n", R.side, Q.side); bad++; }
+  if (Q.rights != R.rights) { printf("castling rights: engine %u rules %u\\n", R.rights, Q.rights); bad++; }
+  if (Q.ep != R.ep) { printf("e.p. square: engine %u rules %u\\n", R.ep, Q.ep); bad++; }
+  if (Q.half != R.half) { printf("half-move clock: engine %u rules %u\\n", R.half, Q.half); bad++; }
+  if (Q.ply != R.ply) { printf("ply: engine %d rules %d\\n", R.ply, Q.ply); bad++; }
+  printf("position %s move 0x%x -> %s\\n", fen0.c_str(), m, P.fen().c_str());
+  if (bad) printf("CONFIRMED do_move disagrees with the rules of chess in %d field(s)\\n", bad); else printf("NOT-REPRODUCED (FEN-visible fields agree; the failing obligation concerns internal state)\\n");
+''', 'access': '''
+  static void abs(const Position& P, SPos& o) { for (int s = 0; s < 64; s++) o.board[s] = (uint32_t)P._board[s]; o.side = (uint32_t)P._current_side; o.rights = (uint32_t)P._castling_rights; o.ep = (uint32_t)P._enpassant_square; o.half = P._half_move_counter; o.ply = P._ply_counter; }
+'''}
+
+
+def do_move_jobs():
+    out = []
+    for ci, cname in enumerate(CLASSES):
+        h = ND + ('void h_do(void) { struct Position P = nondet_Position(); uint32_t m = nondet_u32();\n'
+                  '  G_SQ = nondet_u32(); G_PC = nondet_u32(); G_I = nondet_int(); G_J = nondet_int(); G_HI = nondet_int(); G_CLASS = %d; sp_of(&P, &G_P0); W_P = P; W_m = m;\n'
+                  '  %s(&P, m);' % (ci, DO) + CANARY + '}\n')
+        out.append(Job('do_move/' + cname, PTUS, [DO], h, 'h_do', contracts={DO: C_DO},
+                       enforce=DO, spec=SPEC, post_spec=POST, pre_text=GHOST + MOVE_CLASS, timeout=2400,
+                       unwindset=loops_unwind([('Position__remove_piece', 11), ('Position__move_piece', 11)]),
+                       route='closed-by-complete-unwinding(11): piece lists have 10 slots; the three piece mutators are inlined (dfcc call replacement havocs byte slices of the 7.5 KB Position object and cost 5-10 M variables per query)',
+                       replay=REPLAY_DO,
+                       note='do_move == rules of chess, field by field (ghost square), move class: ' + cname))
+    return out
 
 
 def jobs(tier, seed):
-    return mutator_jobs()
+    return mutator_jobs() + do_move_jobs()
